@@ -466,6 +466,8 @@ func c19JudgeListing(op string, md []byte, challenger string, pre, post map[chan
 				}
 			}
 		} else if strictAll && !dup {
+			// (the statement says "only if": a refusal where a listed channel is already administered by the
+			// challenger is stricter than necessary, not a violation - creation does refuse it, for instance)
 			return class, fmt.Errorf("%s failed although every listed channel exists, never sent a packet and has no admin", op)
 		}
 	}
@@ -566,6 +568,14 @@ func TestC19Rapid(t *testing.T) {
 			case "challenger":
 				b := w.bridges[rapid.IntRange(0, len(w.bridges)-1).Draw(rt, "bridge")]
 				nu := w.users[rapid.IntRange(0, 3).Draw(rt, "newchal")]
+				if rapid.IntRange(0, 3).Draw(rt, "sameChallenger") == 0 {
+					// an update that names the address already stored: the listed channels are (re)claimed all the same
+					for _, u := range w.users {
+						if u.Str == b.challenger {
+							nu = u
+						}
+					}
+				}
 				signer := b.challenger
 				if rapid.IntRange(0, 4).Draw(rt, "gov") == 0 {
 					signer = w.e.Authority
